@@ -232,10 +232,28 @@ func init() {
 				others = others[:*c.limit-len(tails)]
 			}
 			pipes = append(tails, others...)
-			rng.Shuffle(len(prints), func(i, j int) { prints[i], prints[j] = prints[j], prints[i] })
-			if len(prints) > *c.limit {
-				prints = prints[:*c.limit]
+			// four fifths of the sample: dumps / reports without a predicted parse error (the conservation
+			// claim needs exit status 0); the rest only has to leave pp alive
+			clean := cleanPrints(prints)
+			isClean := map[string]bool{}
+			for _, p := range clean {
+				isClean[p.raw] = true
 			}
+			var faulty []printCase
+			for _, p := range prints {
+				if !isClean[p.raw] {
+					faulty = append(faulty, p)
+				}
+			}
+			rng.Shuffle(len(clean), func(i, j int) { clean[i], clean[j] = clean[j], clean[i] })
+			rng.Shuffle(len(faulty), func(i, j int) { faulty[i], faulty[j] = faulty[j], faulty[i] })
+			if len(faulty) > *c.limit/5 {
+				faulty = faulty[:*c.limit/5]
+			}
+			if len(clean) > *c.limit-len(faulty) {
+				clean = clean[:*c.limit-len(faulty)]
+			}
+			prints = append(clean, faulty...)
 		}
 		if len(pipes)+len(prints) == 0 {
 			res.infra("no cases")
